@@ -134,6 +134,29 @@ pub fn check_model(spec: &LmSpec, l: &mut Local) {
             l.violation(format!("{kind}:{sense}:{rel}"), format!("row {} ({rel}, {sense}): reported shadow price {}, sensitivity of the optimum is {}", row.name, reported[0], want), case(&Some(sol.clone())));
         }
     }
+    // the builder's door: Clarabel solver object + DualValues::shadow_price(name) must give the same prices
+    {
+        use rooc::builder::{DualValues, Solver};
+        match crate::core::catch(|| rooc::Clarabel.solve(&lm)) {
+            Ok(Ok(bs)) => {
+                l.count("builder_door_compared");
+                for row in &spec.rows {
+                    if row.name.is_empty() {
+                        continue;
+                    }
+                    let direct: Option<f64> = sol.shadow.iter().find(|(n, _)| n == &row.name).map(|(_, v)| *v);
+                    let through = bs.shadow_price(&row.name);
+                    if direct.map(f64::to_bits) != through.map(f64::to_bits) {
+                        l.violation("builder-shadow-price-differs", format!("row {}: free function reports {:?}, Clarabel solver object + shadow_price() reports {:?}", row.name, direct, through), case(&Some(sol.clone())));
+                    }
+                }
+                if bs.shadow_price("").is_some() || bs.shadow_price("no such row").is_some() {
+                    l.violation("builder-price-for-unknown-row", "shadow_price() answers for the empty or an unknown name", case(&Some(sol.clone())));
+                }
+            }
+            other => l.violation("builder-door-no-answer", format!("the free function answers but the Clarabel solver object does not: {:?}", other.map(|r| r.map(|_| ()).map_err(|e| e.to_string()))), case(&Some(sol.clone()))),
+        }
+    }
     // unnamed rows report none; no price for unknown names
     for (name, _) in &sol.shadow {
         if name.is_empty() {
@@ -194,7 +217,7 @@ pub fn run(mut run: Run) -> ! {
     crate::core::silence_panics();
     run.isolate = true;
     run.case_timeout_s = 10.0;
-    run.rule = "every member of finite continuous LinearModel families with named rows (and every subset of rows left unnamed) is filtered exactly to unique non-degenerate optima (exactly n linearly independent tight constraints, all multipliers non-zero) whose rhs perturbations of +-1/1024 stay in the basis-stability range; each such model is solved with solve_real_lp_problem_clarabel and every reported shadow price compared with the exact sensitivity; distinct = canonical model text".into();
+    run.rule = "every member of finite continuous LinearModel families with named rows (and every subset of rows left unnamed) is filtered exactly to unique non-degenerate optima (exactly n linearly independent tight constraints, all multipliers non-zero) whose rhs perturbations of +-1/1024 stay in the basis-stability range; each such model is solved with solve_real_lp_problem_clarabel and every reported shadow price compared with the exact sensitivity; the builder door (Clarabel solver object, DualValues::shadow_price(name)) must report bit-identical prices and none for unknown names; distinct = canonical model text".into();
     run.assume("exact multipliers from the n x n tight-constraint system over BigRational, self-checked on every model against exact two-sided finite differences of the optimal value");
     run.assume("tolerance 1e-5 (interior-point accuracy); models on which Clarabel gives no answer or a wrong optimum are counted and left to C05");
     for fam in families(run.quick()) {
